@@ -245,7 +245,21 @@ pub fn check(c: &Case) -> Outcome {
             let ex = prob.exact(*t);
             let err = max_abs_diff(&ex, yi);
             if err > acc_bound {
-                return Outcome::viol(format!("{}: value at requested time {:e} is off the exact solution by {:e} > bound {:e} (kappa {:.2}, naccpt {}, tolscale {:e})", name, t, err, acc_bound, prob.kappa(), plain.naccpt, tolscale));
+                let msg = format!("{}: value at requested time {:e} is off the exact solution by {:e} > bound {:e} (kappa {:.2}, naccpt {}, tolscale {:e})", name, t, err, acc_bound, prob.kappa(), plain.naccpt, tolscale);
+                // C01's known finding K1 (the embedded estimate vanishes at an isolated step size: one over-long step is
+                // accepted with a local error far above the tolerance) shows here as well when the accepted-step ends of
+                // the plain run themselves leave the bound at such a step; same signature as in C01
+                let e: Vec<f64> = plain.t.iter().zip(&plain.y).map(|(tt, yy)| max_abs_diff(yy, &prob.exact(*tt))).collect();
+                let hs = |i: usize| (plain.t[i] - plain.t[i - 1]).abs();
+                let k1 = match e.iter().position(|v| *v > acc_bound) {
+                    Some(1) => prob.rate_t() * hs(1) > 1.0,
+                    Some(i) if i >= 2 => hs(i) >= 2.5 * hs(i - 1) && e[i - 1] <= 0.1 * acc_bound,
+                    _ => false,
+                } || (2..plain.t.len()).any(|i| hs(i) >= 2.5 * hs(i - 1) && e[i] - e[i - 1] >= 0.5 * acc_bound);
+                if k1 {
+                    return Outcome::viol_key("C01-overlong-step", msg);
+                }
+                return Outcome::viol(msg);
             }
         }
     }
